@@ -184,6 +184,13 @@ def _make_prior(case, target: str, root: str) -> None:
             f.write("unrelated user data\n")
         with open(os.path.join(target, "sub", "data.bin"), "wb") as f:
             f.write(b"\x00" * 17)
+    elif prior == "junkdir_patchlike":
+        # unrelated user directory whose entries happen to be called patch_*
+        os.makedirs(os.path.join(target, "patch_old"))
+        with open(os.path.join(target, "patch_notes.txt"), "w") as f:
+            f.write("notes about a patch, not a catalog cache\n")
+        with open(os.path.join(target, "patch_old", "fix.diff"), "w") as f:
+            f.write("--- a\n+++ b\n")
     elif prior == "emptydir":
         os.makedirs(target)
     elif prior == "file":
@@ -306,7 +313,7 @@ def run_creation(case: dict, root: str, *, sim_kwargs: dict | None = None, trace
 
     def main():
         common = dict(overwrite=overwrite, progress=progress, max_workers=mw, chunksize=chunksize)
-        if buffersize is None or src_kind == "random" or p["mode"] == "create":
+        if (buffersize is None and not case.get("preview_chunks")) or src_kind == "random" or p["mode"] == "create":
             if src_kind in ("df", "traced"):
                 cat = yaw.Catalog.from_dataframe(target, source, **kw, **patch_kw, **common)
             elif src_kind == "random":
@@ -324,9 +331,17 @@ def run_creation(case: dict, root: str, *, sim_kwargs: dict | None = None, trace
             else:
                 reader = new_filereader(source, **rkw)
             ycat.PatchMode.determine(patch_kw.get("patch_centers"), kw.get("patch_name"), None)
+            if case.get("preview_chunks"):
+                # the caller looks at the first chunk(s) and abandons that pass
+                it = iter(reader)
+                for _ in range(int(case["preview_chunks"])):
+                    try:
+                        next(it)
+                    except StopIteration:
+                        break
             ycat.write_patches(
                 target, reader, patch_kw.get("patch_centers"), overwrite=overwrite,
-                progress=progress, max_workers=mw, buffersize=buffersize,
+                progress=progress, max_workers=mw, buffersize=-1 if buffersize is None else buffersize,
             )
             cat = yaw.Catalog(target, max_workers=mw)
         return cat
@@ -383,7 +398,8 @@ def run_creation(case: dict, root: str, *, sim_kwargs: dict | None = None, trace
         records_faulted=rec_f,
         patch_ids=pids,
         centers=centers,
-        centers_given=centers_given,
+        centers_given=None if centers_given is None else np.array(centers_given, copy=True),
+        coords_object=coords,
         gen_args=gen_args,
         races=sim.file_races(),
         fault_fired=dict(sim.faults.get("_fired", {})),
